@@ -60,7 +60,7 @@ def strategy(tier):
         expanding.case_strategy(tier, rot=True, max_ops=25).map(tag("exp")),
         cbloom.case_strategy(tier, max_ops=20).map(tag("cbloom")),
         cms.case_strategy(tier, classes=("cms", "hh", "st"), max_ops=20, over_remove=True).map(tag("cms")),
-        cuckoo.case_strategy(tier, max_ops=25).map(tag("cuckoo")),
+        cuckoo.case_strategy(tier, max_ops=25, allow_reload=True).map(tag("cuckoo")),
         qf.case_strategy(tier, max_ops=45).map(tag("qf")), qf.case_strategy(tier, max_ops=45).map(tag("qf")),
     )
     return st.tuples(base, extra).map(lambda t: dict(t[0], **t[1]))
@@ -93,13 +93,18 @@ def _bloom_target(ctx, d, counting, case):
     path = getattr(d, "path", None)
     backing = os.path.join(d.dir, path) if (kind == "ondisk" and path) else None
 
+    def raw_cells():
+        return bytes(bytearray(o.bloom[: o.bloom_length])) if not counting else o.bloom.tobytes()
+
     def snap():
-        s = [bytes(bytearray(o.bloom[: o.bloom_length])) if not counting else o.bloom.tobytes(), o.elements_added, o.estimated_elements,
+        s = [raw_cells(), o.elements_added, o.estimated_elements,
              o.false_positive_rate, o.number_bits, o.number_hashes, o.bloom_length, o.is_on_disk]
-        if exportable:
-            s.append(bytes(o))
         if backing:
             s.append(_file(backing))
+        if exportable:
+            s.append(bytes(o))
+            s.append(raw_cells())
+            s.append(o.elements_added)
         return s
 
     K = CountingBloomFilter if counting else BloomFilter
@@ -255,10 +260,13 @@ def _cuckoo_target(ctx, d, case):
     tmp = ctx.tmpdir()
 
     def snap():
-        s = [bytes(o), cuckoo.snapshot(o, d.counting), o.elements_added, o.capacity, o.bucket_size, o.max_swaps, o.fingerprint_size_bits,
+        # the raw bucket table is read BEFORE (and again after) anything is exported, so an export that touches the table shows
+        s = [cuckoo.snapshot(o, d.counting), o.elements_added, o.capacity, o.bucket_size, o.max_swaps, o.fingerprint_size_bits,
              o.expansion_rate, o.auto_expand]
         if d.counting:
             s.append(o.unique_elements)
+        s.append(bytes(o))
+        s.append(cuckoo.snapshot(o, d.counting))
         return s
 
     def exp_fo(k, dep):
@@ -342,7 +350,7 @@ def run_case(case, ctx):
             t = _cms_target(ctx, d, case)
             pool = d.pool
         elif s == "cuckoo":
-            d = cuckoo.CuckooDriver(case, ctx, {})
+            d = cuckoo.CuckooDriver(case, ctx, {"allow_reload": True})  # the state may be a LOADED filter
             d.run()
             t = _cuckoo_target(ctx, d, case)
             pool = d.pool
